@@ -151,6 +151,10 @@ class Agent:
       tx_gap_min   minimum number of tx_valid-low cycles between packets (>= 1)
       start_quiet  number of initial cycles in which the PHY and the transmitter stay silent
       abort_tx     whether the PHY may raise DIR in the middle of a link transmission
+      pend_abort   per-cent probability, per presentation of a transmit command (0x4x on the bus, not yet
+                   accepted), that the PHY starts a receive instead of accepting it, in one of the cycles in
+                   which it would still have been waiting or in the very cycle it would have accepted - mostly
+                   with DIR and NXT rising together (0 = never; no random draw is made then)
       tx_wait_idle the transmitter starts a packet only when the translator reports not busy and the
                    control inputs have been stable for 4 cycles
     """
@@ -159,7 +163,7 @@ class Agent:
         self.rng = rng
         self.p = dict(rx_rate=15, abort_rate=0, nxt_delay=3, throttle=30, tx_rate=30, max_len=12,
                       ctrl_mode="const", ctrl_rate=10, illegal_rx=False, spurious_nxt=0, tx_gap_min=1,
-                      start_quiet=0, rx_max_items=14, tx_wait_idle=False, abort_tx=True)
+                      start_quiet=0, rx_max_items=14, tx_wait_idle=False, abort_tx=True, pend_abort=0)
         self.p.update(params or {})
         self.ctrl = dict(ctrl0 or DEFAULT_CTRL)
         # PHY state
@@ -169,6 +173,7 @@ class Agent:
         self.episode = []          # remaining (dir, nxt, data) rows of the DIR-high episode
         self.last_bit = 0          # bit 4 of the last RxCmd sent (what the decoder remembers)
         self.after_dir = 0         # cycles since DIR fell (turnaround)
+        self.pend_abort_at = -1    # value of `wait` at which the pending transmit command is pre-empted by a receive
         # UTMI transmitter state
         self.tx_bytes = None
         self.tx_pos = 0
@@ -180,12 +185,13 @@ class Agent:
         self.tags = set()
 
     # --- PHY receive episodes ---------------------------------------------------------------
-    def make_episode(self):
+    def make_episode(self, nxt_start=None):
         """A DIR-high episode obeying ULPI 1.1 3.8.2.4 (and the LegalUlpiPhy predicate) unless
         illegal_rx is set: turnaround; RxCmds (NXT low) and, while RxActive, data bytes (NXT high)."""
         rng = self.rng
         rows = []
-        nxt_start = rng.chance(55)
+        if nxt_start is None:
+            nxt_start = rng.chance(55)
         rows.append((1, int(nxt_start), rng.below(256)))          # turnaround cycle, data undefined
         act = nxt_start
         just = False
@@ -274,7 +280,19 @@ class Agent:
                     if not self.presented:
                         self.presented = True
                         self.wait = rng.range(0, p["nxt_delay"])
-                    if self.wait == 0:
+                        self.pend_abort_at = -1
+                        if p["pend_abort"] and bus >> 6 == 1 and not quiet and rng.below(100) < p["pend_abort"]:
+                            self.pend_abort_at = rng.range(0, self.wait)
+                    if self.pend_abort_at == self.wait:
+                        # a packet arrives from the bus before the PHY has taken the transmit command
+                        self.pend_abort_at = -1
+                        self.episode = self.make_episode(nxt_start=rng.chance(85))
+                        dir_, nxt, data_i = self.episode.pop(0)
+                        self.phy = "episode" if self.episode else "idle"
+                        self.after_dir = 0
+                        self.presented = False
+                        self.tags.add("rx-preempts-pending-txcmd" + ("-dir-nxt" if nxt else ""))
+                    elif self.wait == 0:
                         nxt = 1
                     else:
                         self.wait -= 1
